@@ -45,6 +45,7 @@
 package interp // import "golang.org/x/tools/go/ssa/interp"
 
 import (
+	"runtime/debug"
 	"strings"
 
 	"fmt"
@@ -60,6 +61,9 @@ import (
 
 	"golang.org/x/tools/go/ssa"
 )
+
+var debugPanics = os.Getenv("SYMGO_DEBUG_PANIC") != ""
+var lastPanicSeen interface{}
 
 type continuation int
 
@@ -628,6 +632,22 @@ func runFrame(fr *frame) {
 		fr.panic = recover()
 		if pe, ok := fr.panic.(pathEnd); ok {
 			panic(pe) // path termination is not a target panic: no defers, no recover
+		}
+		if debugPanics && fr.panic != lastPanicSeen {
+			lastPanicSeen = fr.panic
+			fmt.Fprintf(os.Stderr, "TARGET PANIC %v\n", describePanic(fr.panic))
+			for f := fr; f != nil; f = f.caller {
+				pos := ""
+				if f.block != nil {
+					for _, in := range f.block.Instrs {
+						if in.Pos().IsValid() {
+							pos = f.i.prog.Fset.Position(in.Pos()).String()
+						}
+					}
+				}
+				fmt.Fprintf(os.Stderr, "   at %s (%s)\n", f.fn, pos)
+			}
+			fmt.Fprintf(os.Stderr, "%s\n", debug.Stack())
 		}
 		if re, ok := fr.panic.(runtime.Error); ok && strings.Contains(re.Error(), "interp.") {
 			panic(pathEnd{endUnsupported, "interpreter: " + re.Error() + " in " + fr.fn.String()})
